@@ -132,7 +132,7 @@ ilu_cpivotL(
     pivmax = -1.0;
     pivptr = nsupc;
     diag = SLU_EMPTY;
-    old_pivptr = nsupc;
+    old_pivptr = SLU_EMPTY;
     ptr0 = SLU_EMPTY;
     for (isub = nsupc; isub < nsupr; ++isub) {
         if (marker[lsub_ptr[isub]] > jcol)
@@ -158,6 +158,10 @@ ilu_cpivotL(
 	if (lsub_ptr[isub] == diagind) diag = isub;
 	if (ptr0 == SLU_EMPTY) ptr0 = isub;
     }
+
+    /* The remembered pivot row is not among the candidates (it was dropped
+       from L, or belongs to a later relaxed supernode): it cannot be reused. */
+    if ( *usepr && old_pivptr == SLU_EMPTY ) *usepr = 0;
 
     if (milu == SMILU_2 || milu == SMILU_3) pivmax += drop_sum.r;
 
